@@ -14,6 +14,7 @@ package conc
 
 import (
 	"fmt"
+	"math"
 	"strconv"
 )
 
@@ -702,8 +703,24 @@ func (s *cliScen) stopRound() {
 	}
 }
 
+// wrapRound: a client that has lived long - its request counter stands just below 2^31 - with a request issued
+// early in its life still unanswered: ids stay unique whatever the counter's value.
+func (s *cliScen) wrapRound() {
+	r := s.r
+	first, _ := s.startKnown() // keeps its (small) id pending
+	_ = first
+	r.cli.VerifSetNextID(math.MaxInt32 - 1)
+	for i := 0; i < 4; i++ {
+		s.startKnown()
+	}
+	r.settle()
+}
+
 func (s *cliScen) raceRun() {
 	g := s.g
+	if g.chance(1, 4) {
+		s.wrapRound()
+	}
 	rounds := 2 + g.intn(4)
 	for i := 0; i < rounds; i++ {
 		switch x := g.intn(10); {
